@@ -128,6 +128,8 @@ func cmdCheck(args []string) int {
 	solver := fs.String("solver", "z3", "solver binary")
 	noReplay := fs.Bool("no-replay", false, "skip native replay (development)")
 	budgetOverride := fs.Duration("budget", 0, "override exploration budget")
+	filter := fs.String("filter", "", "only jobs whose id contains this (development)")
+	maxJobs := fs.Int("max-jobs", 0, "only the first N jobs (development)")
 	var id string
 	if len(args) > 0 && !strings.HasPrefix(args[0], "-") {
 		id = args[0]
@@ -165,6 +167,18 @@ func cmdCheck(args []string) int {
 	}
 	loadT := time.Since(start)
 	jobs := p.Jobs(*tier, seed)
+	if *filter != "" {
+		var kept []Job
+		for _, j := range jobs {
+			if strings.Contains(j.ID(), *filter) {
+				kept = append(kept, j)
+			}
+		}
+		jobs = kept
+	}
+	if *maxJobs > 0 && len(jobs) > *maxJobs {
+		jobs = jobs[:*maxJobs]
+	}
 	tmo := 10000
 	if t, ok := p.TimeoutMs[*tier]; ok {
 		tmo = t
@@ -272,6 +286,13 @@ func summary(id, tier string, results []*JobResult, r *Runner, wall time.Duratio
 			break
 		}
 		fmt.Printf("  biggest job %s paths=%d\n", jr.Job.ID(), jr.Paths)
+	}
+	sort.Slice(top, func(i, j int) bool { return top[i].Wall > top[j].Wall })
+	for i, jr := range top {
+		if i >= 5 || jr.Wall < 5*time.Second {
+			break
+		}
+		fmt.Printf("  slowest job %s paths=%d cpu_s=%.1f\n", jr.Job.ID(), jr.Paths, jr.Wall.Seconds())
 	}
 	keys := sortedKeys(ends)
 	sort.Slice(keys, func(i, j int) bool { return ends[keys[i]] > ends[keys[j]] })
